@@ -6,7 +6,9 @@ Record flags := { f_ignore_params : bool; f_ignore_services : bool; f_quiet : bo
 
 (** what the file system and the external libraries answer (oracles, supplied by the harness from the real run) *)
 Inductive file_result := FReadErr (msg : str) | FYamlErr (msg : str) | FInput (i : input).
-Record glob_result := { gl_pattern : str; gl_err : option str; gl_matches : list str (* cleaned, in glob order *) }.
+Record glob_result := { gl_pattern : str;
+                         gl_goquoted : str;     (* strconv.Quote of the pattern (fmt %#v keeps printable non-ASCII runes): oracle, Go's unicode tables are not modelled *)
+                         gl_err : option str; gl_matches : list str (* cleaned, in glob order *) }.
 Record world := {
   wd_globs : list glob_result;                  (* one per -i pattern, in order *)
   wd_files : list (str * file_result);          (* by cleaned path *)
@@ -90,7 +92,7 @@ Definition read_pattern (w : world) (st : rstate) (jg : nat * glob_result) : rst
   let gerr_ := match gl_err g with
                | Some m => gprefix (s "pattern: " ++ quote (gl_pattern g) ++ s ": ") [leaf m]
                | None => None end in
-  fold_left (read_file w (gl_pattern g))
+  fold_left (read_file w (gl_goquoted g))
             files
             {| r_input := r_input st; r_found := r_found st; r_processed := r_processed st;
                r_errs := r_errs st ++ [gerr_];
@@ -98,7 +100,7 @@ Definition read_pattern (w : world) (st : rstate) (jg : nat * glob_result) : rst
                           ++ match files with [] => [s "   No files"] | _ => [] end |}.
 
 (** fmt.Sprintf("%#v", []string) without the "[]string" prefix *)
-Definition patterns_lit (l : list str) : str := s "{" ++ join (s ", ") (map quote l) ++ s "}".
+Definition patterns_lit (l : list str) : str := s "{" ++ join (s ", ") l ++ s "}".   (* the elements are already quoted: [gl_goquoted] *)
 
 Definition read_config (w : world) (i : input) : (input * err) * list str :=
   match wd_globs w with
